@@ -71,9 +71,9 @@ var c12Pairs = func() []*c12Scenario {
 	short := map[string]string{"SYNC": "sync", "CKP": "ckpassive", "CKT": "cktruncate", "FSNAP": "snapshot", "CMP1": "compact1", "RETL0": "retl0",
 		"CLOSE": "close", "RSET": "reset", "W": "appwrite", "RSYNC": "rsync", "SW": "syncwait", "REG": "register", "UNREG": "unregister",
 		"ENABLE": "enable", "DISABLE": "disable", "SNAP": "storesnapshot", "RET9": "ret9", "STATUS": "status", "DIAG": "diag", "SCLOSE": "storeclose",
-		"SYNCDB": "storesync", "TXC": "apptx", "TXR": "apptxrollback", "CLOSEX": "closecancelled"}
+		"SYNCDB": "storesync", "TXC": "apptx", "TXR": "apptxrollback", "CLOSEX": "closecancelled", "LIST": "storelist"}
 	prio := map[string]int{}
-	for i, o := range []string{"CLOSE", "CLOSEX", "SCLOSE", "DISABLE", "UNREG", "REG", "ENABLE", "FSNAP", "SNAP", "CKT", "CKP", "SYNC", "SW", "RSYNC", "SYNCDB", "CMP1", "RETL0", "RET9", "RSET", "STATUS", "DIAG", "TXC", "TXR", "W"} {
+	for i, o := range []string{"CLOSE", "CLOSEX", "SCLOSE", "DISABLE", "UNREG", "REG", "ENABLE", "FSNAP", "SNAP", "CKT", "CKP", "SYNC", "SW", "RSYNC", "SYNCDB", "CMP1", "RETL0", "RET9", "RSET", "STATUS", "DIAG", "LIST", "TXC", "TXR", "W"} {
 		prio[o] = i
 	}
 	mk := func(a, b string) *c12Scenario {
@@ -116,6 +116,11 @@ var c12Pairs = func() []*c12Scenario {
 	out = append(out, mk("UNREG", "ENABLE"))
 	out = append(out, &c12Scenario{Name: "enable-vs-unregister+register", Prefix: base, Setup: []string{"DISABLE"},
 		Threads: [][]string{{"ENABLE"}, {"UNREG", "REG"}}})
+	// a store-wide pass over the managed databases against the registry changing under it
+	for _, sc := range []*c12Scenario{mk("UNREG", "LIST"), mk("REG", "LIST")} {
+		sc.Setup = []string{"REG2"}
+		out = append(out, sc)
+	}
 	// application transaction against sync and checkpoints (C02 half)
 	out = append(out, mk("TXC", "SYNC"), mk("TXC", "CKT"), mk("TXR", "SYNC"), mk("TXC", "FSNAP"))
 
@@ -204,6 +209,7 @@ func c12FindScenario(name string) *c12Scenario {
 type c12World struct {
 	S       *scn.Scn
 	Sc      *c12Scenario
+	Second  *litestream.DB   // REG2: a second database of the same store (own path)
 	Extra   []*litestream.DB // instances created by REG operations (index = creation order)
 	ExtraBy []int            // thread index that created Extra[i]
 	Results [][]string       // per thread, per op
@@ -297,6 +303,9 @@ func (w *c12World) Destroy() {
 	for _, d := range w.Extra {
 		d.VerifAbandon()
 	}
+	if w.Second != nil {
+		w.Second.VerifAbandon()
+	}
 	w.S.Destroy()
 }
 
@@ -378,6 +387,17 @@ func (w *c12World) Op(ti int, op string) string {
 	case "DIAG":
 		_ = s.DB.SyncDiagnostic()
 		return "ok"
+	case "LIST":
+		// what every store-wide pass does (compaction / retention / heartbeat monitors, the list and status
+		// handlers): take the list of managed databases, then visit each one
+		n := 0
+		for _, db := range s.Store.DBs() {
+			if db.IsOpen() {
+				n++
+			}
+			_ = db.Path()
+		}
+		return "ok"
 	case "RSET":
 		return c12Class(s.DB.ResetLocalState(ctx))
 	case "REG":
@@ -388,6 +408,32 @@ func (w *c12World) Op(ti int, op string) string {
 		name := fmt.Sprintf("DB%d", len(w.Extra)+1)
 		w.mu.Unlock()
 		c12NameInstance(name, db)
+		return c12Class(s.Store.RegisterDB(db))
+	case "REG2":
+		// setup only: a SECOND database (own path, own replica directory) managed by the same store, so that
+		// store-wide passes have more than one element to visit
+		path2 := s.DBPath + "-second"
+		sq, err := sql.Open("sqlite", "file:"+path2+"?_pragma=busy_timeout(0)")
+		if err != nil {
+			panic(err)
+		}
+		for _, q := range []string{"PRAGMA journal_mode = wal", "CREATE TABLE IF NOT EXISTS t (id INTEGER PRIMARY KEY, v TEXT)", "INSERT INTO t (v) VALUES ('second')"} {
+			if _, err := sq.Exec(q); err != nil {
+				panic(err)
+			}
+		}
+		sq.Close()
+		db := litestream.NewDB(path2)
+		db.MonitorInterval = 0
+		db.BusyTimeout = 0
+		db.ShutdownSyncTimeout = 0
+		client := file.NewReplicaClient(s.ReplicaDir + "-second")
+		rep := litestream.NewReplicaWithClient(db, client)
+		rep.MonitorEnabled = false
+		db.Replica = rep
+		client.Replica = rep
+		w.Second = db
+		c12NameInstance("DBsecond", db)
 		return c12Class(s.Store.RegisterDB(db))
 	case "UNREG":
 		return c12Class(s.Store.UnregisterDB(ctx, s.DBPath))
